@@ -28,6 +28,10 @@ def profiles_for(pid, tier):
         edge.append(profile("woi-fifo", "woi", max_steps=d))
         edge.append(profile("woe-ondisk", "woe", keyloc={1: "default", 2: "ondisk", 3: "ondisk"}, max_steps=d - 1,
                             hash={1: 5, 2: 6, 3: 7}))
+        # disk-only inserts (placement advice / storage writer) whose returned handle the caller keeps for a while
+        for pol in ("woe", "woi"):
+            edge.append(profile(f"{pol}-ondisk-held", pol, keys=[1, 2], hash={1: 5, 2: 6}, keyloc={1: "ondisk", 2: "default"},
+                                ops=["ins", "ins_h", "rem", "get", "evict_all", "hold"], max_steps=d + 1, max_ins=3))
         edge.append(profile("woi-lru-evictall", "woi", algo="lru", memcap=9, max_steps=d - 1, hash={1: 5, 2: 6, 3: 7}))
         edge.append(profile("woe-s3fifo-evictall", "woe", algo="s3fifo", memcap=9, max_steps=d - 1))
         edge.append(profile("woe-nolog", "woe", tomblog=False, max_steps=d - 1, ops=["ins", "get", "evict_all", "hold", "gate", "close"]))
@@ -133,7 +137,13 @@ def gen_random(p, rng, num, length):
                 break
             a = rng.choice(p["ops"] + ["ins", "get", "get"])
             k = rng.choice(p["keys"])
-            if a in ("ins", "ins_nt") and a in p["ops"]:
+            if a == "ins_h" and a in p["ops"]:
+                if p["keyloc"][k] != "ondisk" or rng.random() < 0.3:
+                    ops.append({"a": "drop_h"})
+                else:
+                    nins += 1
+                    ops.append({"a": a, "k": k, "loc": p["keyloc"][k]})
+            elif a in ("ins", "ins_nt") and a in p["ops"]:
                 nins += 1
                 ops.append({"a": a, "k": k, "loc": p["keyloc"][k]})
             elif a in ("rem", "get", "fetch", "sload") and a in p["ops"]:
@@ -153,6 +163,8 @@ def gen_random(p, rng, num, length):
                 if hold:
                     ops.append({"a": "unhold"})
                     hold = False
+                if "ins_h" in p["ops"]:
+                    ops.append({"a": "drop_h"})
                 if gate:
                     ops.append({"a": "gate_off"})
                     gate = False
@@ -165,6 +177,8 @@ def gen_random(p, rng, num, length):
             ops.append({"a": "unhold"})
         if gate:
             ops.append({"a": "gate_off"})
+        if "ins_h" in p["ops"]:
+            ops.append({"a": "drop_h"})
         if active:
             for k in p["keys"]:
                 ops.append({"a": "get", "k": k})
@@ -265,6 +279,18 @@ def run_profile(pid, tier, p, kind, base, seed):
                roots=rep["root_mismatches"], panics=rep["panics"], nontrivial=rep["nontrivial"],
                by_field=rep["by_field"])
     ok, cand = mem.split_trace(trace)
+    # the history of every open known finding of this property and profile is always executed and judged, so
+    # that the finding is reported (as KNOWN-FINDING) on every run for as long as it is open
+    kh = [k for k in core.load_known() if k.get("status") == "open" and k.get("property") == pid
+          and k.get("profile") == p["name"]] if kind == "edge" else []
+    if kh:
+        kscripts = os.path.join(d, "known.txt")
+        with open(kscripts, "w") as f:
+            for k in kh:
+                f.write(json.dumps({"ops": k["history"], "obs": None}) + "\n")
+        _, ktrace = replay_scripts(d, p, kscripts, "known", sample=len(kh), threads=1)
+        ok2, cand2 = mem.split_trace(ktrace)
+        ok, cand = ok + ok2, cand + cand2
     if kind == "rand":
         out["nontrivial"] = sum(1 for s in ok if any(json.loads(x)["obs"]["enq"] for x in s))
     violations, drift = judge(pid, d, p, ok, cand, kind)
